@@ -86,7 +86,7 @@ def verify_strategy(tier):
             "d": gen.secrets(),
             "z": gen.digests(),
             "k": gen.secrets(),
-            "mut": st.sampled_from(MUTS),
+            "mut": gen.choice(MUTS),
             "aux": gen.uniform_int(1, N - 1),
             "aux2": gen.uniform_int(1, N - 1),
             "j": st.integers(0, 2**20),
